@@ -822,6 +822,8 @@ def specialize(stmts, var, val, consts):
     import copy as _copy
 
     def ev(t):
+        if isinstance(t, ast.Name) and t.id == var and isinstance(val, bool):
+            return val
         if isinstance(t, ast.Compare) and len(t.ops) == 1 and isinstance(t.left, ast.Name) and t.left.id == var:
             r = t.comparators[0]
             op = t.ops[0]
